@@ -231,3 +231,27 @@ func H_C02_url_rules() {
 		vRunUrl("C02 Url repeated key", "h?k="+v+"&k="+w, []string{"k", "k"}, []string{v, w}, NewRule().Set("k", "required,r1"))
 	}
 }
+
+// a call with a per-call rule set followed by a call on the same type judged by its tags only
+// (and the other way round): each call is compared with the reference on its own arguments
+func H_C02_sequence() {
+	known := vGlobalRules()
+	rm := RM{"A": "r3,required|need A", "C": "r2"}
+	first := vndBool("overrideFirst")
+	for i := 0; i < 2; i++ {
+		o := &vW1{A: vStr("A" + vNum(i)), B: vndInt("B" + vNum(i)), C: "c"}
+		vULog = nil
+		r := vNewRef()
+		r.global = known
+		var err error
+		if (i == 0) == first {
+			err = Struct(o, vCopyRM(rm))
+			r.unscoped = rm
+		} else {
+			err = Struct(o)
+		}
+		r.top(o)
+		vCheckAgainstRef("C02 sequence call "+vNum(i), err, r)
+	}
+	vReach("end")
+}
